@@ -334,6 +334,7 @@ def growth_download(ctx: Ctx):
     from .tlc import WORK
     ctx.mc("MC_CliDownload", "SPECIFICATION DSpec\nINVARIANT Ends\nINVARIANT SuccessIffBothFiles\nINVARIANT NoCloudWithoutDevice\nINVARIANT NothingFetchedWithoutLogin\n"
                                "INVARIANT PluginOnlyAfterProtocol\nINVARIANT EscapesOnlyWhenFetching\nCHECK_DEADLOCK FALSE\n", name=f"{ctx.pid}_mc_clidownload", timeout=600)
+    ctx.mc("MC_CliDownload", "SPECIFICATION FairDSpec\nPROPERTY Terminates\nCHECK_DEADLOCK FALSE\n", name=f"{ctx.pid}_live_clidownload", timeout=600)
     runs = [download_run(ctx.rng, k, WORK / f"{ctx.pid}_dl") for k in range(ctx.pick(60, 600))]
     vectors = [v for v, _ in runs]
     n = len(vectors)
@@ -367,6 +368,7 @@ def growth(ctx: Ctx):
     growth_discover(ctx)
     growth_download(ctx)
     ctx.mc("MC_CliQuery", "SPECIFICATION QSpec\n" + CFG, name=f"{ctx.pid}_mc_cliquery", timeout=600)
+    ctx.mc("MC_CliQuery", "SPECIFICATION FairQSpec\nCONSTANTS\nRetries = 3\nPROPERTY Terminates\nCHECK_DEADLOCK FALSE\n", name=f"{ctx.pid}_live_cliquery", timeout=600)
     r = run_tlc("Gen_CliQuery", "SPECIFICATION QSpec\nCONSTANTS\nRetries = 3\nCONSTRAINT GEmit\nCHECK_DEADLOCK FALSE\n", name=f"{ctx.pid}_gen_cliquery", workers=1, timeout=600)
     scn = [json.loads(p[1]) for p in r.prints if isinstance(p, list) and p and p[0] == "SCN"]
     if len(scn) < 20:
